@@ -18,6 +18,7 @@ func main() {
 	verif := flag.String("verif", envOr("EVCHECK_VERIF", "/verif"), "verification directory (evidence, known findings, controls)")
 	tier := flag.String("tier", envOr("VERIF_TIER", "quick"), "quick|thorough")
 	work := flag.String("work", "", "scratch directory for the harness module (default <verif>/.work/<prop>-<tier>)")
+	out := flag.String("out", "", "directory receiving evidence/ (default: the verification directory)")
 	noctl := flag.Bool("no-controls", false, "do not load the control packages")
 	flag.Parse()
 	if flag.NArg() < 1 {
@@ -25,6 +26,19 @@ func main() {
 		os.Exit(2)
 	}
 	prop := flag.Arg(0)
+	if prop == "paths" {
+		// debugging aid: evcheck paths <pkg> <recv|-> <name>
+		p, err := check.Load(*repo, filepath.Join(os.TempDir(), "evcheck-paths"), "")
+		if err != nil {
+			fmt.Println(err)
+			os.Exit(2)
+		}
+		check.DumpPaths(p, flag.Arg(1), flag.Arg(2), flag.Arg(3))
+		os.Exit(0)
+	}
+	if *out == "" {
+		*out = *verif
+	}
 	seed, _ := strconv.Atoi(os.Getenv("VERIF_SEED"))
 	if *tier != "quick" && *tier != "thorough" {
 		*tier = "quick"
@@ -35,7 +49,7 @@ func main() {
 	if err != nil {
 		fmt.Println("cannot read known_findings.json:", err)
 		r.Und(prop+".setup", "known-findings", "", err.Error())
-		os.Exit(r.Finish(*verif, &check.KnownFile{}))
+		os.Exit(r.Finish(*out, &check.KnownFile{}))
 	}
 	run, ok := check.Runners[prop]
 	if !ok {
@@ -44,7 +58,7 @@ func main() {
 	}
 	wd := *work
 	if wd == "" {
-		wd = filepath.Join(*verif, ".work", prop+"-"+*tier)
+		wd = filepath.Join(*out, ".work", prop+"-"+*tier)
 	}
 	ctl := filepath.Join(*verif, "checker", "testdata", "controls")
 	if *noctl {
@@ -55,19 +69,19 @@ func main() {
 			if e := recover(); e != nil {
 				fmt.Printf("checker panic: %v\n%s\n", e, debug.Stack())
 				r.Und(prop+".internal", "panic", "", fmt.Sprint(e))
-				code = r.Finish(*verif, known)
+				code = r.Finish(*out, known)
 			}
 		}()
 		p, err := check.Load(*repo, wd, ctl)
 		if err != nil {
 			fmt.Println("load failed:", err)
 			r.Und(prop+".load", "program", "", err.Error())
-			return r.Finish(*verif, known)
+			return r.Finish(*out, known)
 		}
 		r.Packages = p.NPkgs
 		c := &check.Ctx{P: p, R: r, Tier: *tier}
 		run(c)
-		return r.Finish(*verif, known)
+		return r.Finish(*out, known)
 	}()
 	_ = os.RemoveAll(wd)
 	os.Exit(code)
